@@ -1,6 +1,9 @@
 use crate::parser::error::Error;
 use crate::parser::params::Params;
 use proc_macro_error::{abort, emit_error};
+#[cfg(feature = "__verif")]
+use crate::verif::HashMap;
+#[cfg(not(feature = "__verif"))]
 use std::collections::HashMap;
 use syn::punctuated::Punctuated;
 use syn::spanned::Spanned;
